@@ -373,7 +373,12 @@ pub fn gen_hash_project(rng: &mut Rng, k: u64) -> Project {
                 _ => ("", ""),
             };
             main.push_str(&format!(".define bank {{\n    name = \"hdr\"\n    size = 16\n    fill = 0\n    create-segment = true\n{}}}\n.define bank {{\n    name = \"main\"\n{}}}\n", f1, f2));
-            main.push_str(".define segment {\n    name = \"code\"\n    start = $c000\n    bank = \"main\"\n}\n.define segment {\n    name = \"data\"\n    start = $c800\n    bank = \"main\"\n}\n");
+            // (in either order: a bank's buffer grows upwards or downwards; the gap between the two is the bank's to fill)
+            if rng.chance(1, 2) {
+                main.push_str(".define segment {\n    name = \"code\"\n    start = $c000\n    bank = \"main\"\n}\n.define segment {\n    name = \"data\"\n    start = $c800\n    bank = \"main\"\n}\n");
+            } else {
+                main.push_str(".define segment {\n    name = \"data\"\n    start = $c800\n    bank = \"main\"\n}\n.define segment {\n    name = \"code\"\n    start = $c000\n    bank = \"main\"\n}\n");
+            }
             main.push_str(".segment \"hdr\" {\n    .text \"HDR\"\n    .byte 1, 2\n}\n");
             main.push_str(".segment \"code\" {\nstart:\n    jsr set_a\n    jsr set_b\n    lda table\n    rts\n");
             main.push_str(".import set_it as set_a from \"param.asm\" {\n    .const ADDRESS = $d020\n}\n.import set_it as set_b from \"param.asm\" {\n    .const ADDRESS = $d021\n}\n}\n");
